@@ -52,6 +52,9 @@ def fixed_cases(tier):
                 c += 1
                 setp(t, p, '$required' if mask >> i & 1 else c)
             out.append({'layers': [t], 'fmts': ['json'], 'labels': ['sweep']})
+    for ls in ([{'ports': ['$required', '$required']}, {'ports': [80]}], [{'ports': ['$required', '$required', 1]}, {'other': 1}], [['$required', {'a': '$required'}]],
+               [{'l': ['alpha']}, {'l': ['$required', 'beta']}], [{'l': ['$required']}, {'l': ['$required']}, {'z': 1}], [[['$required']], [1]]):
+        out.append({'layers': ls, 'fmts': ['yaml'] * len(ls), 'labels': ['fixed']})
     _FIXED = out
     return out
 
